@@ -1305,3 +1305,28 @@ mod tests {
         Ok(())
     }
 }
+
+/// Read-only view of the writer's pending-block state, for external runtime monitors.
+#[cfg(feature = "verif-hooks")]
+#[derive(Debug, Clone, PartialEq, Eq)]
+pub struct VerifWriterState {
+    pub buffer: Vec<u8>,
+    pub num_values: usize,
+    pub has_header: bool,
+    pub block_size: usize,
+    pub marker: [u8; 16],
+}
+
+#[cfg(feature = "verif-hooks")]
+impl<W: Write> Writer<'_, W> {
+    /// Snapshot of the pending block buffer, value count and header flag.
+    pub fn verif_state(&self) -> VerifWriterState {
+        VerifWriterState {
+            buffer: self.buffer.clone(),
+            num_values: self.num_values,
+            has_header: self.has_header,
+            block_size: self.block_size,
+            marker: self.marker,
+        }
+    }
+}
